@@ -233,24 +233,30 @@ def validate(func, /, *args, **kwds):
     # strip markup
     named, defaults = strip_markup(named, defaults)
 
+    # keyword-only arguments are legal keywords; FAIL if a required one is missing
+    kwonly = _kwonlyargs(func)
+    for k in kwonly:
+        if k not in defaults and k not in kwds:
+            raise TypeError("%s() missing required keyword-only argument '%s'" % (func.__name__, k))
+
     # FAIL if partial built for **kwds, but **kwds not used in func.func
-    p_varkwds = set(p_kwds) - bad_kwds - bad_args
+    p_varkwds = set(p_kwds) - bad_kwds - bad_args - set(kwonly)
     if p_varkwds and not haskwds:
         raise TypeError("%s() got an unexpected keyword argument '%s'" % (func.__name__,p_varkwds.pop()))
 
     # FAIL if partial built for *args, but *args not used in func.func
-    p_varargs = max(0, len(p_args) - len(p_required))
+    p_varargs = max(0, len(p_args) - len(p_named))
     if p_varargs and not hasargs:
         raise TypeError("%s() takes at most %d arguments (%d given)" % (func.__name__, len(p_named), len(p_args)+len(args)+len(kwds)))
 
     # get any varargs; FAIL if func doesn't take varargs
     var_args = args[len(named):]
     if var_args and not hasargs:
-        var_kwds = set(kwds) - set(named)
+        var_kwds = set(kwds) - set(named) - set(kwonly)
         raise TypeError("%s() takes at most %d arguments (%d given)" % (func.__name__, len(named)+len(p_args), len(p_args)+len(args)+len(kwds)))
 
     # check any varkwds; FAIL if func doesn't take varkwds
-    var_kwds = set(kwds) - set(named)
+    var_kwds = set(kwds) - set(named) - set(kwonly)
     if var_kwds and not haskwds:
         raise TypeError("%s() got an unexpected keyword argument '%s'" % (func.__name__,var_kwds.pop()))
 
